@@ -264,8 +264,8 @@ class Check(PropertyCheck):
             "multipart bodies are partly written by hand with every Content-Disposition spelling, repeated and missing names and "
             "filenames that collide with the ignore lists; pair cases: two request shapes + one option set. distinct = distinct case; non-trivial = at least one request "
             "served or a pair whose keys are equal for one side only.")
-    budget = {"quick": 1500, "thorough": 60000}
-    time_budget = {"quick": 20, "thorough": 500}
+    budget = {"quick": 1500, "thorough": 40000}
+    time_budget = {"quick": 20, "thorough": 380}
     fingerprints = ["mitmproxy.addons.serverplayback:ServerPlayback._hash",
                     "mitmproxy.addons.serverplayback:ServerPlayback.next_flow",
                     "mitmproxy.addons.serverplayback:ServerPlayback.recompute_hashes",
